@@ -42,12 +42,7 @@ Definition txt_value : bytes := [118; 97; 108; 117; 101].         (* value *)
 Definition any_prefix : bytes :=                                   (* type.googleapis.com/ *)
   [116;121;112;101;46;103;111;111;103;108;101;97;112;105;115;46;99;111;109;47].
 
-Fixpoint join_b (sep : N) (l : list bytes) : bytes :=
-  match l with
-  | [] => []
-  | [x] => x
-  | x :: r => x ++ sep :: join_b sep r
-  end.
+Definition join_b : N -> list bytes -> bytes := join.
 
 (* run a list of outcomes left to right, first failure wins (the encoder stops there) *)
 Fixpoint sequence {A} (l : list (outcome A)) : outcome (list A) :=
@@ -276,4 +271,4 @@ Fixpoint pval_depth (v : pval) : nat :=
 
 Definition encode (fmt_float : bool -> N -> bytes) (any_inner : bytes -> bytes -> outcome bytes)
            (e : env) (root : bytes) (m : msg) : outcome bytes :=
-  encode_fuel fmt_float any_inner e (2 * pval_depth (VMsg m) + 2) root m.
+  encode_fuel fmt_float any_inner e (4 * pval_depth (VMsg m) + 4) root m.
